@@ -1,6 +1,7 @@
 package main
 
 import (
+	"os"
 	"fmt"
 	"go/token"
 
@@ -321,6 +322,9 @@ func runC07(c *Ctx) {
 			}
 			oldSubst := z.Subst
 			z.Subst = gm.substAt(rc.At)
+			if os.Getenv("FFC_DBG") != "" {
+				fmt.Fprintf(os.Stderr, "DBG ret poly %s want %s\n", z.Of(rc.Vals[0]), pFdiv(12, polyAtom(z.defaultAtom(call)+"#0")))
+			}
 			if !z.Of(rc.Vals[0]).equal(pFdiv(12, polyAtom(z.defaultAtom(call)+"#0"))) && bad == "" {
 				bad = "MapRegion does not return the page of the reserved address"
 			}
